@@ -847,13 +847,18 @@ class LogicalLinkController(object):
             raise err.Error(errno.EOPNOTSUPP)
         while True:
             client = socket.accept()
-            sap = self.sap[client.addr]
+            with self.lock:
+                # look up and insert in one step: terminate() holds the lock
+                # while it removes the service access points, a connection
+                # inserted after that would never be shut down
+                sap = self.sap[client.addr]
+                if sap is not None:
+                    sap.insert_socket(client)
             if sap is None:
                 # the link terminated just after the connection was accepted
                 client.bind(None)
                 client.close()
                 raise err.Error(errno.EPIPE)
-            sap.insert_socket(client)
             log.debug("new data link connection ({0} <=== {1})"
                       .format(client.addr, client.peer))
             if client.send_miu > self.cfg['send-miu']:
